@@ -5,6 +5,7 @@ import FlVerif.Lemmas.AntecedentSound
 import FlVerif.Lemmas.Reject
 import FlVerif.Lemmas.CodeRule
 import FlVerif.Lemmas.CodeLoad
+import FlVerif.Lemmas.CodeSession
 
 /-! # C16 — Malformed rule text is rejected cleanly, never accepted
 
@@ -257,6 +258,118 @@ theorem successful_load_loaded (tbl : Table) (e : EngineInfo) (p : ParsedRule) (
       cases cs with
       | nil => exact absurd rfl hne
       | cons c cs => simp [RuleState.isLoaded]
+
+/-! ### Tie A (code → model) for the loading / unloading functions
+
+The rule object is `Py.Sess.RuleObj` (the texts `Rule.parse` stored, the loaded antecedent tree, the loaded conclusions,
+the activation flag); `r.state` is what `is_loaded` looks at and `r.put s` the object with its parts in state `s` and
+no activation.  `Rule.load`, `load_rules` and `reload_rules` are translated with the state at a raise
+(`Except (Py.Err × S) S`, profile `raise_state`): an exception carries the objects as they are at that moment.  The two
+calls `antecedent.load(engine)` / `consequent.load(engine)` are the models of the functions tied above
+(`code_consequentLoad`, `C06.code_antecedentLoad`, `C17.code_toPostfix`) together with "a failing call leaves its own
+part unloaded" (`Py.Sess.anteLoad`, `consLoad`). -/
+
+/-- `Antecedent.is_loaded` as translated from the source: `expression is not None` -/
+theorem code_anteIsLoaded (a : Option ANode) :
+    ∃ σ, Gen.Code.Antecedent_is_loaded.run a {} = .ok σ ∧ σ.ret = some a.isSome :=
+  ⟨_, Op.code_anteIsLoaded a {}, rfl⟩
+
+/-- `Antecedent.unload` as translated from the source: `expression = None` -/
+theorem code_anteUnload (σ0 : Gen.Code.Antecedent_unload.S) :
+    ∃ σ, Gen.Code.Antecedent_unload.run σ0 = .ok σ ∧ σ.self_expression = none :=
+  ⟨_, Op.code_anteUnload σ0, rfl⟩
+
+/-- `Consequent.is_loaded` as translated from the source: the list of conclusions is not empty -/
+theorem code_consIsLoaded (cs : List Conclusion) :
+    ∃ σ, Gen.Code.Consequent_is_loaded.run cs {} = .ok σ ∧ σ.ret = some (!cs.isEmpty) :=
+  ⟨_, Op.code_consIsLoaded cs {}, rfl⟩
+
+/-- `Consequent.unload` as translated from the source: the list of conclusions is emptied -/
+theorem code_consUnload (σ0 : Gen.Code.Consequent_unload.S) :
+    ∃ σ, Gen.Code.Consequent_unload.run σ0 = .ok σ ∧ σ.self_conclusions = [] :=
+  ⟨_, Op.code_consUnload σ0, rfl⟩
+
+/-- `Rule.is_loaded` as translated from the source (its two callees are their generated definitions) = the model
+    `RuleState.isLoaded` -/
+theorem code_ruleIsLoaded (r : Py.Sess.RuleObj) :
+    ∃ σ, Gen.Code.Rule_is_loaded.run r {} = .ok σ ∧ σ.ret = some r.state.isLoaded :=
+  ⟨_, Op.code_ruleIsLoaded r {}, rfl⟩
+
+/-- `Rule.unload` as translated from the source (its callees are their generated definitions): no activation, no
+    expression, no conclusions -/
+theorem code_ruleUnload (r : Py.Sess.RuleObj) :
+    ∃ σ, Gen.Code.Rule_unload.run r {} = .ok σ ∧ σ.this = r.put .unloaded :=
+  ⟨_, Op.code_ruleUnload r {}, rfl⟩
+
+/-- **Tie A (code → model).**  `Gen.Code.Rule_load` is regenerated from the source of `Rule.load` on every run.  For
+    every table, engine and rule object it raises the exception class the model `Op.ruleLoad` predicts – **and the rule
+    is then in the state the model gives** (so `failed_load_not_loaded` below is a statement about the code) – and
+    otherwise returns with the rule in the model's state. -/
+theorem code_ruleLoad (tbl : Table) (e : EngineInfo) (r : Py.Sess.RuleObj) :
+    match ruleLoad tbl e r.parsed r.state with
+    | (s, none) => ∃ σ, Gen.Code.Rule_load.run tbl e r {} = .ok σ ∧ σ.this = r.put s
+    | (s, some k) => ∃ σ, Gen.Code.Rule_load.run tbl e r {} = .error (k.toPy, σ) ∧ σ.this = r.put s :=
+  Op.code_ruleLoad tbl e r
+
+/-- `RuleBlock.unload_rules` as translated from the source: every rule is unloaded -/
+theorem code_unloadRules (rules : List Py.Sess.RuleObj) :
+    ∃ σ, Gen.Code.RuleBlock_unload_rules.run rules {} = .ok σ ∧ σ.visited = rules.map (·.put .unloaded) :=
+  Op.code_unloadRules rules
+
+/-- **Tie A (code → model).**  `Gen.Code.RuleBlock_load_rules` is regenerated from the source of
+    `RuleBlock.load_rules` on every run (`try: rule.load(engine) except Exception as ex:` runs the handler on the state
+    at the raise; `rule.unload()` / `rule.load(engine)` are the generated definitions above).  It raises `RuntimeError`
+    exactly when the model `Op.loadRules` has a failure – after the loop, i.e. after every rule has been tried – and,
+    raising or not, every rule ends in the state of the model with its texts unchanged and no activation, and one
+    entry (rule, exception class) per failure has been collected, in order. -/
+theorem code_loadRules (tbl : Table) (e : EngineInfo) (rules : List Py.Sess.RuleObj) :
+    ∃ σ, Gen.Code.RuleBlock_load_rules.run tbl e rules {} =
+        (if loadRulesRaises tbl e (rules.map (·.parsed)) then .error (.runtime, σ) else .ok σ) ∧
+      σ.visited.map Py.Sess.RuleObj.state = (loadRules tbl e (rules.map (·.parsed))).1 ∧
+      σ.visited.map (·.parsed) = rules.map (·.parsed) ∧ (∀ r ∈ σ.visited, r.activated = false) ∧
+      σ.exceptions = (loadRules tbl e (rules.map (·.parsed))).2.map (fun f => (f.1, f.2.toPy)) :=
+  Op.code_loadRules tbl e rules
+
+/-- `RuleBlock.reload_rules` as translated from the source (`unload_rules` then `load_rules`, both their generated
+    definitions): the outcome of `load_rules` -/
+theorem code_reloadRules (tbl : Table) (e : EngineInfo) (rules : List Py.Sess.RuleObj) :
+    ∃ σ, Gen.Code.RuleBlock_reload_rules.run tbl e rules {} =
+        (if loadRulesRaises tbl e (rules.map (·.parsed)) then .error (.runtime, σ) else .ok σ) ∧
+      σ.rules.map Py.Sess.RuleObj.state = (loadRules tbl e (rules.map (·.parsed))).1 ∧
+      σ.rules.map (·.parsed) = rules.map (·.parsed) ∧ (∀ r ∈ σ.rules, r.activated = false) :=
+  Op.code_reloadRules tbl e rules
+
+/-- after `load_rules` – whether it raised or not – a rule reports loaded exactly when its own load did not fail -/
+theorem load_rules_loaded_iff (tbl : Table) (e : EngineInfo) (ps : List ParsedRule) :
+    (loadRules tbl e ps).1.map (·.isLoaded) = ps.map (fun p => (ruleLoad tbl e p .unloaded).2.isNone) := by
+  simp only [loadRules, List.map_map]
+  apply List.map_congr_left
+  intro p _
+  simp only [Function.comp]
+  cases h : (ruleLoad tbl e p .unloaded).2 with
+  | none => exact successful_load_loaded tbl e p _ h
+  | some k => exact failed_load_not_loaded tbl e p _ k h
+
+/-- `load_rules` raises exactly when some rule does not load -/
+theorem load_rules_raises_iff (tbl : Table) (e : EngineInfo) (ps : List ParsedRule) :
+    loadRulesRaises tbl e ps = true ↔ ∃ p ∈ ps, (ruleLoad tbl e p .unloaded).2 ≠ none := by
+  simp only [loadRulesRaises, loadRules, Bool.not_eq_true', ← Bool.not_eq_true, List.isEmpty_iff]
+  constructor
+  · intro h
+    obtain ⟨x, hx⟩ := List.exists_mem_of_ne_nil _ h
+    obtain ⟨p, hp, hk⟩ := List.mem_filterMap.mp hx
+    refine ⟨p, hp, ?_⟩
+    cases hh : (ruleLoad tbl e p .unloaded).2 with
+    | none => rw [hh] at hk; simp at hk
+    | some k => simp
+  · rintro ⟨p, hp, hk⟩ hnil
+    cases hh : (ruleLoad tbl e p .unloaded).2 with
+    | none => exact hk hh
+    | some k =>
+      have : (p, k) ∈ ps.filterMap (fun p => (ruleLoad tbl e p .unloaded).2.map (fun k => (p, k))) :=
+        List.mem_filterMap.mpr ⟨p, hp, by simp [hh]⟩
+      rw [hnil] at this
+      cases this
 
 /-! ## the hypotheses are satisfiable; the F5 inputs are rejected with a `SyntaxError` by the model -/
 
